@@ -27,8 +27,10 @@ for d in sorted(glob.glob(os.path.join(ROOT, "seeded", "*", "meta.json"))):
         cls = mm.group(1)[:60]
     hist = "; missed before strengthening" if m.get("history") else ""
     tier = "thorough" if "thorough" in chk.get("cmd", "") else "quick"
-    rows.append("| %s | %s | %s | %s (%s, %ss)%s | %s |" % (m["id"], ", ".join(files), title.replace("|", "/")[:110], m.get("status", "?"), tier, chk.get("wall_s", "?"), hist, cls.replace("|", "/")))
-table = "| change | file(s) | what it does | property's check | violation class reported |\n|---|---|---|---|---|\n" + "\n".join(rows) + "\n"
+    reg = m.get("regression", {})
+    regs = "%s (%ss)" % (reg.get("status"), reg.get("wall_s", "?")) if reg else "-"
+    rows.append("| %s | %s | %s | %s (%s, %ss)%s | %s | %s |" % (m["id"], ", ".join(files), title.replace("|", "/")[:110], m.get("status", "?"), tier, chk.get("wall_s", "?"), hist, cls.replace("|", "/"), regs))
+table = "| change | file(s) | what it does | property's check when admitted | violation class reported | final regression (tools/seedall.py) |\n|---|---|---|---|---|---|\n" + "\n".join(rows) + "\n"
 p = os.path.join(ROOT, "DESIGN.md")
 s = open(p).read()
 s = re.sub(r"<!-- seeded-table:begin -->.*<!-- seeded-table:end -->", "<!-- seeded-table:begin -->\n" + table + "<!-- seeded-table:end -->", s, flags=re.S)
